@@ -6,57 +6,63 @@ import Mrm.Model.Merge
 
 namespace Mrm
 
-/-- the outcome's error, if any, is not `MosCompletedMergeError` -/
-def NC (o : Out) : Prop := o.err ≠ some .completed
+/-- an error a merge method can produce itself: `MosMergeError` or a built-in exception -/
+def Err.fromMerge (e : Err) : Prop := e = .merge ∨ ∃ x, e = .crash x
 
-theorem raiseMerge_ne (mid : Option PyExc) : raiseMerge mid ≠ .completed := by
-  cases mid <;> simp [raiseMerge]
+/-- the outcome's error, if any, is a `MosMergeError` proper or a built-in exception — never
+    `MosCompletedMergeError`, `UnknownMosFileType`, `InvalidMosCollection` -/
+def NC (o : Out) : Prop := ∀ e, o.err = some e → e.fromMerge
 
-theorem nc_ok (cs : List Xml) (ws : List Warn) : NC ⟨cs, ws, none⟩ := by simp [NC]
+theorem raiseMerge_from (mid : Option PyExc) : (raiseMerge mid).fromMerge := by
+  cases mid with
+  | none => left; rfl
+  | some x => right; exact ⟨x, rfl⟩
+
+theorem nc_ok (cs : List Xml) (ws : List Warn) : NC ⟨cs, ws, none⟩ := by intro e h; cases h
 theorem nc_crash (cs : List Xml) (ws : List Warn) (x : PyExc) : NC (failWith cs ws (.crash x)) := by
-  simp [NC, failWith]
+  intro e h; simp [failWith] at h; subst h; right; exact ⟨x, rfl⟩
 theorem nc_raise (cs : List Xml) (ws : List Warn) (mid : Option PyExc) : NC (failWith cs ws (raiseMerge mid)) := by
-  simp only [NC, failWith, ne_eq, Option.some.injEq]; exact raiseMerge_ne mid
+  intro e h; simp [failWith] at h; subst h; exact raiseMerge_from mid
 
 theorem findRequired_ne {tag : String} {mid : Option PyExc} {cs : List Xml} {id : Option String} {e : Err}
-    (h : findRequired tag mid cs id = .error e) : e ≠ .completed := by
+    (h : findRequired tag mid cs id = .error e) : e.fromMerge := by
   unfold findRequired at h
   split at h
-  · cases h; simp
-  · cases h; exact raiseMerge_ne mid
+  · cases h; right; exact ⟨_, rfl⟩
+  · cases h; exact raiseMerge_from mid
   · cases h
 
 theorem findTarget_ne {tag : String} {mid : Option PyExc} {cs : List Xml} {id : Option String} {e : Err}
-    (h : findTarget tag mid cs id = .error e) : e ≠ .completed := by
+    (h : findTarget tag mid cs id = .error e) : e.fromMerge := by
   unfold findTarget at h
   split at h
   · cases h
   · split at h
-    · cases h; simp
-    · cases h; exact raiseMerge_ne mid
+    · cases h; right; exact ⟨_, rfl⟩
+    · cases h; exact raiseMerge_from mid
     · cases h
 
 theorem collectSources_ne {tag : String} {mid : Option PyExc} {cs : List Xml} {t : Option Nat}
     {ids : List (Option String)} {acc : List Nat} {e : Err}
-    (h : collectSources tag mid cs t ids acc = .error e) : e ≠ .completed := by
+    (h : collectSources tag mid cs t ids acc = .error e) : e.fromMerge := by
   induction ids generalizing acc with
   | nil => simp [collectSources] at h
   | cons id ids ih =>
     unfold collectSources at h
     split at h
-    · cases h; simp
-    · cases h; exact raiseMerge_ne mid
+    · cases h; right; exact ⟨_, rfl⟩
+    · cases h; exact raiseMerge_from mid
     · split at h
-      · cases h; exact raiseMerge_ne mid
+      · cases h; exact raiseMerge_from mid
       · exact ih h
 
-theorem nc_of_err {cs : List Xml} {ws : List Warn} {e : Err} (h : e ≠ .completed) : NC (failWith cs ws e) := by
-  simp only [NC, failWith, ne_eq, Option.some.injEq]; exact h
+theorem nc_of_err {cs : List Xml} {ws : List Warn} {e : Err} (h : e.fromMerge) : NC (failWith cs ws e) := by
+  intro e' h'; simp [failWith] at h'; subst h'; exact h
 
 theorem nc_deleteLoop (tag : String) (w : Warn) (mid : Option PyExc) (cs : List Xml)
     (ids : List (Option String)) (ws : List Warn) : NC (deleteLoop tag w mid cs ids ws) := by
   induction ids generalizing cs ws with
-  | nil => simp [deleteLoop, NC]
+  | nil => simp only [deleteLoop]; exact nc_ok _ _
   | cons id ids ih =>
     unfold deleteLoop
     split
@@ -69,7 +75,7 @@ theorem nc_deleteLoop (tag : String) (w : Warn) (mid : Option PyExc) (cs : List 
 theorem nc_insertDedup (mid : Option PyExc) (ex : List (Option String)) (cs : List Xml) (i : Nat)
     (ss : List Xml) (ws : List Warn) : NC (insertDedup mid ex cs i ss ws) := by
   induction ss generalizing cs i ws with
-  | nil => simp [insertDedup, NC]
+  | nil => simp only [insertDedup]; exact nc_ok _ _
   | cons s ss ih =>
     unfold insertDedup
     split
@@ -203,5 +209,38 @@ theorem nc_mergeRc (k : Kind) (rc base : Xml) (mid : Option PyExc) : NC (mergeRc
   case RunningOrder => exact nc_ok _ _
   case RunningOrderReplace => exact nc_ok _ _
   case RunningOrderEnd => exact nc_ok _ _
+
+end Mrm
+
+namespace Mrm
+
+/-- the errors of `merge` itself (the completed guard aside) -/
+theorem merge_err_from (k : Kind) (ro msg : Xml) (e : Err) (h : (merge k ro msg).err = some e) : e.fromMerge := by
+  unfold merge at h
+  split at h
+  · simp at h; subst h; right; exact ⟨_, rfl⟩
+  · rename_i base hb
+    cases k <;> dsimp only at h
+    case RunningOrder => simp at h; subst h; right; exact ⟨_, rfl⟩
+    case RunningOrderEnd => simp at h
+    case RunningOrderReplace =>
+      split at h
+      · simp at h; subst h; right; exact ⟨_, rfl⟩
+      · simp at h
+    all_goals
+      split at h
+      · simp at h; subst h; right; exact ⟨_, rfl⟩
+      · split at h
+        · simp at h; subst h; right; exact ⟨_, rfl⟩
+        · exact nc_mergeRc _ _ _ _ e h
+
+theorem merge_err_ne_unknown (k : Kind) (ro msg : Xml) : (merge k ro msg).err ≠ some .unknownType := by
+  intro h; rcases merge_err_from k ro msg _ h with h | ⟨x, h⟩ <;> cases h
+
+theorem merge_err_ne_invalid (k : Kind) (ro msg : Xml) : (merge k ro msg).err ≠ some .invalidCollection := by
+  intro h; rcases merge_err_from k ro msg _ h with h | ⟨x, h⟩ <;> cases h
+
+theorem merge_err_ne_completed (k : Kind) (ro msg : Xml) : (merge k ro msg).err ≠ some .completed := by
+  intro h; rcases merge_err_from k ro msg _ h with h | ⟨x, h⟩ <;> cases h
 
 end Mrm
